@@ -1190,6 +1190,16 @@ fn main() {
     // --- stream 3b: call-site result specialisation. For int/rational operands the dispatch
     //     tables of add/sub/mul/neg/abs/to_int/floor/ceil/numer/denom give a result type without
     //     nil: feeding the result to a function that only accepts non-nil numbers must compile.
+    // fixed witnesses first (1b40f7e: `1 %num.floor nn` / `Rational[1, 2] %num.ceil nn` were rejected
+    // after 47b34c5): every statically nil-free operation on an integer and on a rational
+    for x in [Nm::Int(BigInt::one()), Nm::Rat(BigInt::one(), BigInt::from(2))] {
+        for op in ["neg", "abs", "to_int", "floor", "ceil", "numer", "denom"] {
+            cases.push(Case { ex: Ex::Op(op, vec![Ex::lit(&x)]), opaque: false, stream: "typed-nonnil", oracle: true, typed: true });
+        }
+        for op in ["add", "sub", "mul"] {
+            cases.push(Case { ex: Ex::op2(op, Ex::lit(&x), Ex::lit(&Nm::Int(BigInt::from(3)))), opaque: false, stream: "typed-nonnil", oracle: true, typed: true });
+        }
+    }
     let n_typed = opts.tier.pick(400u64, 10000u64);
     for i in 0..n_typed {
         let mut r = Rng::for_case(opts.seed ^ 0xC20_0006, i);
